@@ -56,12 +56,18 @@ impl Ctx {
         self.out.write_all(b"\n").unwrap();
     }
     /// one expression: its AST (as given by the generator), the identity it declares, what MetaType reports
-    pub fn expr<T: TypeInfo + ?Sized + 'static>(&mut self, ast: &str) {
+    pub fn expr<T: TypeInfo + ?Sized + 'static>(&mut self, ast: &str)
+    where
+        T::Identity: TypeInfo,
+    {
         let m = meta_type::<T>();
         let decl = format!("{:?}", TypeId::of::<T::Identity>());
+        // the declared identity is itself a type with type info: what IT reports, and what identity IT declares
+        let idinfo = meta_body(&<T::Identity as TypeInfo>::type_info());
+        let idid = format!("{:?}", TypeId::of::<<T::Identity as TypeInfo>::Identity>());
         let i = self.metas.len();
         // the AST is spliced in as text: deeply nested expressions exceed serde_json's parse depth
-        let mut line = serde_json::to_string(&json!({"ev": "Expr", "i": i, "tid": tid(&m), "decl": decl, "info": meta_body(&m.type_info())})).unwrap();
+        let mut line = serde_json::to_string(&json!({"ev": "Expr", "i": i, "tid": tid(&m), "decl": decl, "idinfo": idinfo, "idid": idid, "info": meta_body(&m.type_info())})).unwrap();
         line.pop();
         line.push_str(",\"e\":");
         line.push_str(ast);
